@@ -9,6 +9,7 @@ pub mod c03;
 pub mod c04;
 pub mod c09;
 pub mod c10;
+pub mod c11;
 pub mod c10_conn;
 pub mod c18;
 pub mod smoke;
@@ -27,6 +28,7 @@ pub const REGISTRY: &[Entry] = &[
     Entry { id: "C09", run: c09::run, replay: c09::replay },
     Entry { id: "C10", run: c10::run, replay: c10::replay },
     Entry { id: "SMOKE", run: smoke::run, replay: smoke::replay },
+    Entry { id: "C11", run: c11::run, replay: c11::replay },
     Entry { id: "C18", run: c18::run, replay: c18::replay },
 ];
 
